@@ -389,15 +389,22 @@ fn check_cert_fixed(rx_app_cnt: u16, versions: [u8; 12]) -> Result<(), Failure> 
 pub const KF_GROUPSTATUS: &str = "C19-mcgroupstatus-push-out-of-range";
 
 /// McGroupStatusAns: nb_total_groups + up to 4 items (group ids may be out of range 0..=3)
-fn check_group_status(nb_total: u8, items: &[(u8, u32)], kf: &KnownFindings, excluded: &mut u64) -> Result<(), Failure> {
-    let case = json!({"kind":"group_status","nb_total":nb_total,"items":items});
+/// `nb_at`: the setter nb_total_groups() is called before the `nb_at`-th push (after all pushes when
+/// nb_at >= items.len()); 255 = before the first and again after the last push.
+fn check_group_status(nb_total: u8, items: &[(u8, u32)], nb_at: u8, kf: &KnownFindings, excluded: &mut u64) -> Result<(), Failure> {
+    let case = json!({"kind":"group_status","nb_total":nb_total,"items":items,"nb_at":nb_at});
     // documented use: at most MAX_GROUPS items, each group once
     let r = catch(|| {
         let mut c = McGroupStatusAnsCreator::new();
-        c.nb_total_groups(nb_total);
         let mut acc = vec![];
-        for (g, a) in items {
+        for (i, (g, a)) in items.iter().enumerate() {
+            if i == nb_at as usize || (i == 0 && nb_at == 255) {
+                c.nb_total_groups(nb_total);
+            }
             acc.push(c.push(*g, McAddr::from_value(*a)).is_ok());
+        }
+        if nb_at as usize >= items.len() {
+            c.nb_total_groups(nb_total);
         }
         (c.build().to_vec(), acc, c.len())
     });
@@ -703,7 +710,7 @@ pub fn replay(case: &Value, kf: &KnownFindings) -> Result<(), Failure> {
         Some("cert_fixed") => check_cert_fixed(case["rx_app_cnt"].as_u64().unwrap_or(0) as u16, unhex(case["versions"].as_str().unwrap_or("")).try_into().unwrap_or([0; 12])),
         Some("group_status") => {
             let items: Vec<(u8, u32)> = case["items"].as_array().map(|a| a.iter().map(|x| (x[0].as_u64().unwrap_or(0) as u8, x[1].as_u64().unwrap_or(0) as u32)).collect()).unwrap_or_default();
-            check_group_status(case["nb_total"].as_u64().unwrap_or(0) as u8, &items, kf, &mut ex)
+            check_group_status(case["nb_total"].as_u64().unwrap_or(0) as u8, &items, case["nb_at"].as_u64().unwrap_or(0) as u8, kf, &mut ex)
         }
         Some("group_setup") => check_group_setup(case["gid"].as_u64().unwrap_or(0) as u8, case["addr"].as_u64().unwrap_or(0) as u32, unhex(case["mc_key"].as_str().unwrap_or("")).try_into().unwrap_or([0; 16]), unhex(case["ke_key"].as_str().unwrap_or("")).try_into().unwrap_or([0; 16]), case["min"].as_u64().unwrap_or(0) as u32, case["max"].as_u64().unwrap_or(0) as u32, case["order"].as_u64().unwrap_or(0) as u8),
         Some("sequence") => {
@@ -732,7 +739,7 @@ fn boundary_values(bits: u32, rng: &mut SplitMix, n_random: usize) -> Vec<u64> {
 }
 
 pub fn run(ctx: &mut Ctx) {
-    ctx.rule = "per command of the six sets with a creator: every setter once on a fresh creator, in every/random order; field values exhaustive for setter arguments <= 16 bits (one field swept, the others at random baselines), boundary + random for wider ones, out-of-range arguments included; variable-length builders (EchoIncPayloadAns 0..=241 bytes, McGroupStatusAns 0..=4 items incl. out-of-range ids, McGroupSetupReq with key wrap checked with the independent AES, RxAppCntAns all 65536, DutVersionsAns); sequences of 1..=10 commands through mac_commands_len/build_mac_commands with exact/short/long buffers; text forms: all 65536 DevNonce, boundary + random values of the other 17 identifier/key types. Non-trivial: any non-default field value or out-of-range argument; distinct by hash of the case".into();
+    ctx.rule = "per command of the six sets with a creator: every setter once on a fresh creator, in every/random order; field values exhaustive for setter arguments <= 16 bits (one field swept, the others at random baselines), boundary + random for wider ones, out-of-range arguments included; variable-length builders (EchoIncPayloadAns 0..=241 bytes, McGroupStatusAns 0..=4 items incl. out-of-range ids with the count setter at every position among the pushes, McGroupSetupReq with key wrap checked with the independent AES, RxAppCntAns all 65536, DutVersionsAns); sequences of 1..=10 commands through mac_commands_len/build_mac_commands with exact/short/long buffers; text forms: all 65536 DevNonce, boundary + random values of the other 17 identifier/key types. Non-trivial: any non-default field value or out-of-range argument; distinct by hash of the case".into();
     ctx.assumptions = vec![
         "expected accessor values come from the LoRaWAN 1.0.x / TS005 / TS009 field layouts (little-endian multi-octet fields, MaxEIRP table), not from the crate".into(),
         "each setter is called at most once on a fresh creator (the statement is about the values that were set)".into(),
@@ -852,9 +859,13 @@ pub fn run(ctx: &mut Ctx) {
                     let items: Vec<(u8, u32)> = ids.iter().map(|g| (*g, rng.next_u32())).collect();
                     st.eval();
                     st.class(if items.iter().any(|(g, _)| *g > 3) { "group-status-out-of-range" } else { "group-status" });
-                    match check_group_status(nb, &items, &kf, &mut ex) {
-                        Ok(()) => st.nt_hash(hash_value(&json!([nb, items]))),
-                        Err(f) => st.fail(f),
+                    // the count setter at every position among the pushes, and twice
+                    for nb_at in (0..=k as u8).chain([255u8]) {
+                        st.eval();
+                        match check_group_status(nb, &items, nb_at, &kf, &mut ex) {
+                            Ok(()) => st.nt_hash(hash_value(&json!([nb, items, nb_at]))),
+                            Err(f) => st.fail(f),
+                        }
                     }
                 }
             }
